@@ -16,7 +16,7 @@
    refer to /repo/src/css_parser).  Parsing / text assignment builds its objects with the same
    constructors and setters, so it is a sequence of these functions (alloc + attach), the shape of the
    parsed text being the only external input.                                                       *)
-From CssV Require Import Base.
+From CssV Require Import Base Gen.LinkSites.
 
 Definition id := nat.
 
@@ -58,6 +58,29 @@ Definition set_pss v o := mkObj (okind o) (f_pr o) v (f_par o) (f_own o) (kids o
 Definition set_par v o := mkObj (okind o) (f_pr o) (f_pss o) v (f_own o) (kids o).
 Definition set_own v o := mkObj (okind o) (f_pr o) (f_pss o) (f_par o) v (kids o).
 Definition set_kids l o := mkObj (okind o) (f_pr o) (f_pss o) (f_par o) (f_own o) l.
+
+(* the attribute writes of the rule-list sites are REGENERATED from the source on every run
+   (translate/links.py -> Gen/LinkSites.v: lists of (attribute, None | self)); this is their reading *)
+Definition lval_of (p : id) (v : lval) : option id := match v with LNone => None | LSelf => Some p end.
+Definition write1 (p : id) (w : lfld * lval) (o : obj) : obj :=
+  match fst w with
+  | LPr => set_pr (lval_of p (snd w)) o
+  | LPss => set_pss (lval_of p (snd w)) o
+  | LPar => set_par (lval_of p (snd w)) o
+  | LOwn => set_own (lval_of p (snd w)) o
+  end.
+Definition apply_writes (ws : list (lfld * lval)) (p : id) (o : obj) : obj := fold_left (fun o w => write1 p w o) ws o.
+Definition fld_get (f : lfld) (o : obj) : option id :=
+  match f with LPr => f_pr o | LPss => f_pss o | LPar => f_par o | LOwn => f_own o end.
+(* `if rule.<attr> is self: <writes>` *)
+Definition guarded (g : option lfld) (ws : list (lfld * lval)) (p : id) (o : obj) : obj :=
+  match g with
+  | None => apply_writes ws p o
+  | Some f => match fld_get f o with
+              | Some q => if Nat.eqb q p then apply_writes ws p o else o
+              | None => o
+              end
+  end.
 
 Definition role_eqb (a b : role) : bool :=
   match a, b with
@@ -138,8 +161,8 @@ Definition site_kinds (s : site) : kind * kind :=
 (* the attribute writes of the site, on the element c that is being attached to p *)
 Definition site_writes (s : site) (p : id) (o : obj) : obj :=
   match s with
-  | SSheetInsert => set_pss (Some p) (set_par None (set_pr None o))      (* rule._parentRule = None; rule._parent = None; rule._parentStyleSheet = self *)
-  | SContInsert => set_pss None (set_par (Some p) (set_pr (Some p) o))   (* rule._parentRule = self; rule._parent = self; rule._parentStyleSheet = None *)
+  | SSheetInsert => apply_writes sheet_insert_post p o      (* regenerated: the post settings of CSSStyleSheet.insertRule *)
+  | SContInsert => apply_writes cont_insert_writes p o      (* regenerated: CSSRuleRules._finishInsertRule *)
   | SSetStyle | SSetSelList | SSetMedia => set_pr (Some p) o     (* x._parentRule = self *)
   | SSetImported => set_own (Some p) o                   (* self._ownerRule = ownerRule *)
   | SDeclAppend | SSelAppend | SPropPV | SPVItem | SValItem => set_par (Some p) o    (* x.parent = self *)
@@ -149,15 +172,16 @@ Definition site_writes (s : site) (p : id) (o : obj) : obj :=
 Definition clear_role (r : role) (h : heap) (p : id) : heap :=
   if role_single r then upd h p (fun o => set_kids (without_role r (kids o)) o) else h.
 
-Definition attach (s : site) (h : heap) (p c : id) (idx : nat) : heap :=
+Definition attach_gen (w : id -> obj -> obj) (r : role) (kp kc : kind) (h : heap) (p c : id) (idx : nat) : heap :=
   match get h p, get h c with
   | Some op, Some oc =>
-      if negb (contained h c) && kind_eqb (okind op) (fst (site_kinds s)) && kind_eqb (okind oc) (snd (site_kinds s))
-      then upd (upd (clear_role (site_role s) h p) c (site_writes s p)) p
-               (fun o => set_kids (ins (site_role s) c idx (kids o)) o)
+      if negb (contained h c) && kind_eqb (okind op) kp && kind_eqb (okind oc) kc
+      then upd (upd (clear_role r h p) c (w p)) p (fun o => set_kids (ins r c idx (kids o)) o)
       else h
   | _, _ => h
   end.
+Definition attach (s : site) (h : heap) (p c : id) (idx : nat) : heap :=
+  attach_gen (site_writes s) (site_role s) (fst (site_kinds s)) (snd (site_kinds s)) h p c idx.
 
 (* ---- detach sites ------------------------------------------------------------------------ *)
 Inductive dsite :=
@@ -165,22 +189,24 @@ Inductive dsite :=
 | DContDelete.    (* cssrule.py deleteRule: _cssRules[i]._parentRule = None; ._parent = None; del _cssRules[i];
                      _setCssRules: the same writes on every rule of the replaced list *)
 Definition dsite_role d := match d with DSheetDelete => RTop | DContDelete => RSub end.
-Definition dsite_writes d := match d with DSheetDelete => set_pss None | DContDelete => fun o => set_par None (set_pr None o) end.
+Definition dsite_writes d (p : id) (o : obj) : obj :=      (* regenerated *)
+  match d with DSheetDelete => apply_writes sheet_delete_writes p o | DContDelete => apply_writes cont_delete_writes p o end.
 
 Definition removed (r : role) (h : heap) (p : id) (i : nat) : option id :=
   match get h p with
   | Some op => match del r i (kids op) with Some (c, _) => Some c | None => None end
   | None => None
   end.
-Definition detach (d : dsite) (h : heap) (p : id) (i : nat) : heap :=
+Definition detach_gen (w : id -> obj -> obj) (r : role) (h : heap) (p : id) (i : nat) : heap :=
   match get h p with
   | Some op =>
-      match del (dsite_role d) i (kids op) with
-      | Some (c, rest) => upd (upd h p (set_kids rest)) c (dsite_writes d)
+      match del r i (kids op) with
+      | Some (c, rest) => upd (upd h p (set_kids rest)) c (w p)
       | None => h
       end
   | None => h
   end.
+Definition detach (d : dsite) (h : heap) (p : id) (i : nat) : heap := detach_gen (dsite_writes d) (dsite_role d) h p i.
 (* an element leaves its container without any attribute write: _setSeq(newseq) (declaration cssText,
    removeProperty, PropertyValue / Value cssText), self.seq = newseq (SelectorList), appendSelector's
    duplicate removal, the rules of a sheet replaced by its cssText / cssRules setters (rules replaced in
@@ -225,16 +251,38 @@ Definition step (h : heap) (o : op) : heap :=
 Definition run (ops : list op) (h : heap) : heap := fold_left step ops h.
 Definition start : heap := [].
 
-(* named composites used by the code (documentation of the sites; all are sequences of steps) *)
-Definition sheet_set_cssRules (h : heap) (p : id) (l : list id) : heap :=     (* cssstylesheet.py l.122-131 *)
-  fold_left (fun h c => attach SSheetInsert h p c (length h)) l h.
-(* cssrule.py _setCssRules: the rules of the replaced list are detached (as by deleteRule), the rules of
-   the new list are attached (as by _finishInsertRule) *)
-Fixpoint detach_all (n : nat) (d : dsite) (h : heap) (p : id) : heap :=
-  match n with O => h | S m => detach_all m d (detach d h p 0) p end.
-Definition container_set_cssRules (h : heap) (p : id) (l : list id) : heap :=
-  let n := match get h p with Some op => length (kids op) | None => 0 end in
-  fold_left (fun h c => attach SContInsert h p c (length h)) l (detach_all n DContDelete h p).
+(* ---- the cssRules setters, as written (regenerated loops): the rules of the replaced list get the
+   (guarded) writes of the first loop and leave the list, the rules of the new list get the writes of the
+   second loop and enter it *)
+Fixpoint detach_all_gen (n : nat) (w : id -> obj -> obj) (r : role) (h : heap) (p : id) : heap :=
+  match n with O => h | S m => detach_all_gen m w r (detach_gen w r h p 0) p end.
+Definition nkids (h : heap) (p : id) : nat := match get h p with Some op => length (kids op) | None => 0 end.
+Definition sheet_set_cssRules (h : heap) (p : id) (l : list id) : heap :=       (* cssstylesheet.py _setCssRules *)
+  fold_left (fun h c => attach_gen (apply_writes sheet_setrules_new) RTop KSheet KRule h p c (length h)) l
+            (detach_all_gen (nkids h p) (guarded sheet_setrules_old_guard sheet_setrules_old) RTop h p).
+Definition container_set_cssRules (h : heap) (p : id) (l : list id) : heap :=   (* cssrule.py _setCssRules *)
+  fold_left (fun h c => attach_gen (apply_writes cont_setrules_new) RSub KRule KRule h p c (length h)) l
+            (detach_all_gen (nkids h p) (guarded cont_setrules_old_guard cont_setrules_old) RSub h p).
+
+(* ---- a REJECTED sheet.cssText (cssstylesheet.py _setCssText): the rule list is cleared (through the setter or
+   raw, regenerated), n rules of the new text are constructed and inserted, then the rollback branch restores the
+   saved list -- `self._cssRules = oldCssRules`: no setter, no post settings, nothing is written (regenerated) *)
+Definition role_kids (r : role) (l : list (role * id)) : list id :=
+  map snd (filter (fun rc => role_eqb r (fst rc)) l).
+Definition raw_set_rules (h : heap) (p : id) (l : list id) : heap :=
+  upd h p (fun o => set_kids (without_role RTop (kids o) ++ map (pair RTop) l) o).
+Definition sheet_clear_rules (h : heap) (p : id) : heap :=
+  if sheet_cssText_clear_via_setter then sheet_set_cssRules h p [] else raw_set_rules h p [].
+Definition parse_one_rule (p : id) (h : heap) : heap :=       (* CSSxRule(parentStyleSheet=self); self.insertRule(rule) *)
+  attach SSheetInsert (alloc h KRule None (Some p) None None) p (length h) (length h).
+Definition sheet_cssText_rejected (h : heap) (p : id) (n : nat) : heap :=
+  match get h p with
+  | None => h
+  | Some op =>
+      let old := role_kids RTop (kids op) in
+      let h2 := Nat.iter n (parse_one_rule p) (sheet_clear_rules h p) in
+      if sheet_cssText_restore_via_setter then sheet_set_cssRules h2 p old else raw_set_rules h2 p old
+  end.
 (* Property.__init__: the property and its PropertyValue (property.py l.74-79) *)
 Definition property_ctor (h : heap) (par : option id) : heap :=
   let p := length h in
